@@ -2174,7 +2174,11 @@ def slice_C18(ctx):
              ("xpath", "", "\\p{IsGreek}+|\\p{IsBasicLatin}", "aβγ1"), ("xsd", "", "[a-c]+", "abcx"),
              # the same flag string under both dialects, on syntax where the dialects differ: nothing
              # compiled earlier in the process may decide how these are read
-             ("xsd", "", "a$", "a$"), ("xsd", "", "^a", "^a"), ("xpath", "", "^a$", "a^$"), ("xpath", "", "a$|^b", "ab$")]
+             ("xsd", "", "a$", "a$"), ("xsd", "", "^a", "^a"), ("xpath", "", "^a$", "a^$"), ("xpath", "", "a$|^b", "ab$"),
+             # the same pattern text and flags under both dialects, compiled one after the other, where
+             # the two readings differ in whether the empty string matches
+             ("xpath", "", "$", "a$b"), ("xsd", "", "$", "a$b"), ("xsd", "", "^a*", "a^b"), ("xpath", "", "^a*", "a^b"),
+             ("xpath", "m", "(^|b)", "ab^\n"), ("xsd", "m", "(^|b)", "ab^\n")]
     ops, expect_cases = [], []
     handles = 0
     live = []
